@@ -290,6 +290,113 @@ Theorem C01_partition_file_points :
 Proof. exact file_partition_points. Qed.
 Print Assumptions C01_partition_file_points.
 
+From T4V Require Import Base.Scalar.
+From T4V Require C13.Model.
+From T4V Require Import C01.LinkC13.
+
+(* LINK C13 -> C01: the hypothesis "merged surfaces are the same function" is
+   discharged for the renumbering remove_duplicate_surfaces produces (C13's model,
+   at R) by C13_dedup_merges_equal.  [surfs] is C13's descriptor table, [dval] ANY
+   meaning of descriptors, [fval] the surface functions read off the table. *)
+Theorem C01_partition_file_points_linked :
+  forall (dval : C13.Model.desc R -> point -> R) (surfs : list (Z * C13.Model.desc R))
+         (fval : Z -> point -> R) (u0 u1 : Z),
+  (forall k d, In (k, d) surfs -> forall p, fval k p = dval d p) ->
+  (forall p, fval u0 p = (px p - 1)%R) -> (forall p, fval u1 p = (px p + 1)%R) ->
+  forall (skip_dedup : bool) (cden : point -> Z -> bool) cells matching fuel todo cnt0 s' skipped d' p c,
+  0 < u0 -> 0 < u1 -> off_surfaces fval p ->
+  (forall c g orig, lookup c cells = Some (g, orig) ->
+     leaves_ok (msurf_ok matching) g /\ cden p c = mden (sigma_of fval p) (cden p) matching g) ->
+  NoDup todo -> (forall k, In k todo -> k <= cnt0) ->
+  convert_cells fuel cells matching u0 u1 todo (mkSt cnt0 [] [] []) = Ok s' ->
+  prune u0 u1 (if skip_dedup then None
+               else Some (snd (C13.Model.remove_duplicate_surfaces RS surfs))) (vols s') = Ok d' ->
+  (forall k, In k skipped -> k <= cnt0 /\ ~ In k todo) ->
+  cden p c = true -> (forall c', In c' todo -> cden p c' = true -> c' = c) ->
+  exists T, read_table (print_table skipped d') = Some T /\
+            (In c todo -> forall k, pt_in fval T p k <-> k = c) /\
+            (~ In c todo -> forall k, ~ pt_in fval T p k).
+Proof. exact partition_file_points_linked. Qed.
+Print Assumptions C01_partition_file_points_linked.
+
+From T4V Require C11.Model C11.Spec C11.Pipeline C11.EndToEnd.
+From T4V Require Import C01.LinkC11 C01.LinkAll.
+
+(* LINK C11 -> C01.  The cells handed to pot_flag are C11's trees after parsing and
+   complement elimination, translated node by node ([tr]: ('*',l,r) / (':',l,r) /
+   the raw ['*',l,r] list -> binary Node, Surface(z, sub) -> leaf); C11's sense of
+   an MCNP surface / facet is read off the TRIPOLI-4 senses through `matching`
+   ([sg_of]); [tr_den]: mden (tr a) = C11's aden a.  C01's hypothesis "cden is the
+   region of every cell" is DISCHARGED by C11_deck_end_to_end: the region of cell n
+   is C11's mden of the MCNP expression written on card n. *)
+Theorem C01_cells_linked : forall (cs : list C11.EndToEnd.card) rk,
+  Forall C11.EndToEnd.card_ok cs -> C11.Pipeline.table_ranked (C11.EndToEnd.deck_mc cs) rk ->
+  exists tbl F tbl',
+    C11.EndToEnd.build_table (C11.EndToEnd.deck_cards cs) = C11.Model.Ok tbl /\
+    (forall f, (F <= f)%nat -> C11.Model.eliminate_all f tbl = C11.Model.Ok tbl') /\
+    forall sigma matching u0 u1 (cd : N -> bool) fuel todo cnt0 s',
+      0 < u0 -> 0 < u1 -> consistent sigma u0 u1 ->
+      C11.Pipeline.mcnp_meaning (C11.EndToEnd.deck_mc cs) (sg_of sigma matching) cd ->
+      (forall k ids, lookup k matching = Some ids -> Forall (fun x => x <> 0) ids) ->
+      (forall n c', C11.Model.lookup tbl' n = Some c' -> a_known matching (C11.Model.c_geom c') = true) ->
+      NoDup todo -> (forall k, In k todo -> k <= cnt0) ->
+      convert_cells fuel (cells_of tbl') matching u0 u1 todo (mkSt cnt0 [] [] []) = Ok s' ->
+      nonone (vols s') /\
+      (forall n e, C11.EndToEnd.deck_mc cs n = Some e -> In (Z.of_N n) todo ->
+         (exists v, lookup (Z.of_N n) (vols s') = Some v /\ v_fict v = false /\
+                    Vden sigma (vols s') (Z.of_N n) (C11.Spec.mden cd (sg_of sigma matching) e)) \/
+         (lookup (Z.of_N n) (vols s') = None /\ C11.Spec.mden cd (sg_of sigma matching) e = false)) /\
+      (forall k v, lookup k (vols s') = Some v -> v_fict v = false -> In k todo).
+Proof. exact cells_linked. Qed.
+Print Assumptions C01_cells_linked.
+
+(* BOTH LINKS, END TO END: from the cell cards (C11) through pot_flag ...
+   pot_to_t4_cell, the de-duplication's own renumbering (C13), remove_empty /
+   remove_unused and the printer to the VOLU lines read back, for points of R^3:
+   if MCNP puts the point p (off every surface) in the cell of card c - C11's mden
+   of the card's expression - and in no other converted cell, then p lies in
+   exactly one read-back non-FICTIVE volume, numbered c, when c is converted
+   (importance <> 0), and in none otherwise.  Remaining hypotheses: the surface
+   functions agree with C13's descriptor table, the helper planes are x-1 / x+1,
+   `matching` has non-zero ids and knows every surface (facets from 1), the
+   conversion and prune did not raise. *)
+Theorem C01_partition_linked : forall (cs : list C11.EndToEnd.card) rk,
+  Forall C11.EndToEnd.card_ok cs -> C11.Pipeline.table_ranked (C11.EndToEnd.deck_mc cs) rk ->
+  exists tbl F tbl',
+    C11.EndToEnd.build_table (C11.EndToEnd.deck_cards cs) = C11.Model.Ok tbl /\
+    (forall f, (F <= f)%nat -> C11.Model.eliminate_all f tbl = C11.Model.Ok tbl') /\
+    forall (dval : C13.Model.desc R -> point -> R) (surfs : list (Z * C13.Model.desc R))
+           (fval : Z -> point -> R) (u0 u1 : Z) (skip_dedup : bool) matching
+           (cd : point -> N -> bool) fuel todo cnt0 s' skipped d' p (c : N),
+      (forall k d, In (k, d) surfs -> forall q, fval k q = dval d q) ->
+      (forall q, fval u0 q = (px q - 1)%R) -> (forall q, fval u1 q = (px q + 1)%R) ->
+      0 < u0 -> 0 < u1 -> off_surfaces fval p ->
+      C11.Pipeline.mcnp_meaning (C11.EndToEnd.deck_mc cs) (sg_of (sigma_of fval p) matching) (cd p) ->
+      (forall k ids, lookup k matching = Some ids -> Forall (fun x => x <> 0) ids) ->
+      (forall n c', C11.Model.lookup tbl' n = Some c' -> a_known matching (C11.Model.c_geom c') = true) ->
+      NoDup todo -> (forall k, In k todo -> k <= cnt0) ->
+      convert_cells fuel (cells_of tbl') matching u0 u1 todo (mkSt cnt0 [] [] []) = Ok s' ->
+      prune u0 u1 (if skip_dedup then None
+                   else Some (snd (C13.Model.remove_duplicate_surfaces RS surfs))) (vols s') = Ok d' ->
+      (forall k, In k skipped -> k <= cnt0 /\ ~ In k todo) ->
+      cd p c = true -> (forall k, In k todo -> cd p (Z.to_N k) = true -> k = Z.of_N c) ->
+      exists T, read_table (print_table skipped d') = Some T /\
+                (In (Z.of_N c) todo -> forall k, pt_in fval T p k <-> k = Z.of_N c) /\
+                (~ In (Z.of_N c) todo -> forall k, ~ pt_in fval T p k).
+Proof. exact partition_linked. Qed.
+Print Assumptions C01_partition_linked.
+
+(* non-vacuity of the link: the table C11_example_deck computes for the deck
+   "1 0 -1 2 imp:n=1" / "2 3 -2.7 #1:3" meets the side conditions, converts and
+   prunes; both cells are written *)
+Example C01_example_linked :
+  (forall n c', C11.Model.lookup exl_tbl n = Some c' -> a_known exl_matching (C11.Model.c_geom c') = true) /\
+  (forall k ids, lookup k exl_matching = Some ids -> Forall (fun x => x <> 0) ids) /\
+  exists s' d', convert_cells 3 (cells_of exl_tbl) exl_matching 5 6 [1; 2] (mkSt 2 [] [] []) = Ok s' /\
+                prune 5 6 None (vols s') = Ok d' /\
+                map fst (filter (fun kv => negb (v_fict (snd kv))) (written [] d')) = [1; 2].
+Proof. exact exl_ok. Qed.
+
 (* non-vacuity: five cells (three converted, one of importance 0, one filler kept
    by reference), a union without pure-intersection member, a surface of
    reversed side; every hypothesis of C01_cells / C01_partition holds, with a
